@@ -226,11 +226,14 @@ def case_terms(case, run):
 def cases_file(items) -> str:
     """items: list of (env, ops, expected)."""
     out = [HEADER]
-    for i, (env, ops, exp) in enumerate(items):
+    for i, it in enumerate(items):
+        if it is None:
+            continue
+        env, ops, exp = it
         out.append(f"Definition env_{i} : senv := {env}.")
         out.append(f"Definition ops_{i} : list op := {ops}.")
         out.append(f"Definition exp_{i} : sv := {exp}.")
-    pairs = coq_list(f"(trace env_{i} ops_{i}, exp_{i})" for i in range(len(items)))
+    pairs = coq_list(("(SL [], SL [])" if items[i] is None else f"(trace env_{i} ops_{i}, exp_{i})") for i in range(len(items)))
     out.append(f"Definition all_pairs : list (sv * sv) := {pairs}.")
     out.append("Definition bad : list Z := Eval vm_compute in mismatches all_pairs.")
     out.append("Eval vm_compute in bad.")
